@@ -2927,7 +2927,7 @@ def _correspond(ctx):
                 (gen_hunt, ctx.n(150, 3000)), (gen_outside, ctx.n(60, 1000)), (gen_shear, ctx.n(120, 1600)),
                 (gen_dense, ctx.n(10, 140)), (gen_fine, ctx.n(120, 2400)), (gen_nearcut, ctx.n(100, 1600)),
                 (_gen_crystal_small, ctx.n(12, 150)), (gen_narrowbin, ctx.n(40, 1000)),
-                (gen_bigcut, ctx.n(100, 1500)), (gen_elongated, ctx.n(14, 150)), (gen_signed, ctx.n(120, 1600))]
+                (gen_bigcut, ctx.n(100, 1500)), (gen_elongated, ctx.n(14, 150)), (gen_signed, ctx.n(120, 800))]
         import time
         ph = ctx.extra.setdefault('phase_seconds', {})
         vrng = random.Random(ctx.seed * 6007 + 5)
@@ -4153,12 +4153,12 @@ def _search(ctx, broken):
         _search_case(ctx, case, 'corpus', name, True)
     mult = 3 if broken else 1
     plan = [('dense', gen_dense, ctx.n(40, 1500) * mult), ('shear', gen_shear, ctx.n(600, 8000) * mult),
-            ('hunt', gen_hunt, ctx.n(2800, 45000) * mult), ('general', gen_general, ctx.n(250, 6000) * mult),
+            ('hunt', gen_hunt, ctx.n(2800, 36000) * mult), ('general', gen_general, ctx.n(250, 6000) * mult),
             ('grid', gen_grid, ctx.n(250, 6000) * mult), ('edges', gen_edges, ctx.n(100, 2400) * mult),
             ('fine', gen_fine, ctx.n(500, 9000) * mult), ('nearcut', gen_nearcut, ctx.n(400, 8000) * mult),
             ('crystal', gen_crystal, ctx.n(60, 1000) * mult), ('narrowbin', gen_narrowbin, ctx.n(300, 6000) * mult),
             ('bigcut', gen_bigcut, ctx.n(500, 8000) * mult), ('elongated', gen_elongated, ctx.n(150, 2400) * mult),
-            ('signed', gen_signed, ctx.n(480, 9600) * mult)]
+            ('signed', gen_signed, ctx.n(480, 4800) * mult)]
     with tempfile.TemporaryDirectory(prefix='c03_') as tmpdir:
         import time
         ph = ctx.extra.setdefault('phase_seconds', {})
